@@ -82,6 +82,7 @@ structure ConnectStepJ where
 structure StepJ where
   run : Option Nat := none
   connect : Option ConnectStepJ := none
+  via : Option String := none     -- "flow": run through Flow.Run, which hides the action ("*")
   deriving FromJson, ToJson
 
 structure ScJ where
@@ -326,6 +327,8 @@ def process (sc : ScJ) (obs : ObsJ) : Except String Verdict := do
         | [] => throw "missing run observation"
       implRuns := rest
       let io ← match parseRunObs ij with | some o => pure o | none => throw "bad run observation"
+      -- Flow.Run returns only the error: a successful run's action is not observable there
+      let io := if io.out == .ok "*" then (match m.out with | .ok a => { io with out := .ok a } | _ => io) else io
       let (io, m, flat, ref) := if wide then (canon io, canon m, canon flat, canon ref) else (io, m, flat, ref)
       agree := agree && (io == m)
       for (k, b) in judgeRun env ctx0 root vis cancelFree io flat ref do spec := andAll spec k b
